@@ -106,6 +106,21 @@ CLAIMED = {
               "(two_cards_maximum). The model of expand_data_card and of the importance-card merge is compared with the "
               "code on generated and malformed token lists (values and error class)."),
         design_ref='§8 C12'),
+    'C14': dict(
+        technique='Lean 4 proof (char-level model of the card lexer; structural induction) + model↔code correspondence on random blocks + differential conversion of restyled decks',
+        text=("Proved in Lean on the char-level model of get_cards(skipcomments) / is_continuation / expand_tabs / "
+              "Card.content, for lines and blocks of any length: the word sequence of a card's content is, line after "
+              "line, the words before the first $ or & (content_words); hence $ comments are immaterial "
+              "(dollar_comment_immaterial), lines with the same words give the same card whatever their blank space "
+              "and tabs (spacing_immaterial), continuation by a trailing & and by five leading blanks agree "
+              "(continuation_forms_agree), full-line c comments anywhere in a block do not change the cards "
+              "(comment_lines_immaterial). The lexer model is compared with the code on random blocks (tabs, &, $, "
+              "comment lines in every column). Every generated deck is respelled three times by an independent "
+              "restyler (case, blanks/tabs, continuations, comments, message block, Fortran numbers, nR shorthand) and "
+              "the written files must be identical; data-card shorthand and number spellings rest on the theorems of "
+              "C12/C09. Not proved: block splitting (get_block_positions), letter case (lower-casing is done per "
+              "parser), the cell/surface/data card split regexes — restyling differential only."),
+        design_ref='§8 C14'),
     'C15': dict(
         technique='Lean 4 proof (fold invariant of parse_keywords: the later keyword wins; induction over LIKE chains) + model↔code correspondence on option token lists + differential conversion of LIKE decks against their expansion',
         text=("Proved in Lean for option lists of any length: parse_keywords is a left fold of assignments, so after "
